@@ -330,6 +330,16 @@ func (r *Runner) exec(c model.Call) model.Obs {
 			req.Subscription.RetryPolicy = &pubsubpb.RetryPolicy{MinimumBackoff: durationpb.New(30 * time.Second), MaximumBackoff: durationpb.New(40 * time.Second)}
 		case "retry:none":
 			req.UpdateMask = &fieldmaskpb.FieldMask{Paths: []string{"retry_policy"}}
+		case "ttl:2min", "ttl:1h", "ttl:default":
+			req.UpdateMask = &fieldmaskpb.FieldMask{Paths: []string{"expiration_policy"}}
+			if d := model.TTLPresets[c.Op.Tgt]; d > 0 {
+				req.Subscription.ExpirationPolicy = &pubsubpb.ExpirationPolicy{Ttl: durationpb.New(d)}
+			}
+		case "ret:40s", "ret:10min", "ret:default":
+			req.UpdateMask = &fieldmaskpb.FieldMask{Paths: []string{"message_retention_duration"}}
+			if d := model.RetPresets[c.Op.Tgt]; d > 0 {
+				req.Subscription.MessageRetentionDuration = durationpb.New(d)
+			}
 		default:
 			req.UpdateMask = &fieldmaskpb.FieldMask{Paths: []string{"filter"}}
 			if f := model.FilterPresets[c.Op.Tgt]; f != nil {
